@@ -42,10 +42,12 @@ def run_one(m, tier, suite):
         for prop in m["props"]:
             ev = os.path.join(tmp, "ev")
             r = subprocess.run([os.path.join(HERE, "check"), prop, "--tier", tier, "--repo", repo],
-                               capture_output=True, text=True, env={**os.environ, "VERIF_EVIDENCE_DIR": ev, "VERIF_CASE_TIMEOUT": "8"})
+                               capture_output=True, text=True, env={**os.environ, "VERIF_EVIDENCE_DIR": ev, "VERIF_CASE_TIMEOUT": os.environ.get("VERIF_CASE_TIMEOUT", "20")})
             first = [l for l in r.stdout.splitlines() if l.startswith("  clause=")][:1]
-            verdicts[prop] = (r.returncode, first[0][:200] if first else r.stdout[-300:] if r.returncode != 1 else "")
-        status = "caught" if all(v[0] == 1 for v in verdicts.values()) else "MISSED"
+            inc = [l for l in r.stdout.splitlines() if l.startswith("INCONCLUSIVE")][:1]
+            verdicts[prop] = (r.returncode, first[0][:200] if first else (inc[0][:300] if inc else r.stdout[-300:]))
+        status = "caught" if all(v[0] == 1 for v in verdicts.values()) else (
+            "hang->inconclusive" if all(v[0] in (1, 2) and ("did not finish" in v[1] or v[0] == 1) for v in verdicts.values()) else "MISSED")
         res["verdicts"] = verdicts
         return m["id"], status, res
     finally:
@@ -71,7 +73,7 @@ def main():
             out[mid] = status
             print("%-34s %-8s %s" % (mid, status, json.dumps(res)[:400]))
             sys.stdout.flush()
-    missed = [k for k, v in out.items() if v != "caught"]
+    missed = [k for k, v in out.items() if v not in ("caught", "hang->inconclusive")]
     print("caught %d / %d; not caught: %s" % (len(out) - len(missed), len(out), missed))
     return 1 if missed else 0
 
